@@ -23,6 +23,9 @@ CHECKS = {
  'C09': dict(level='exploration', ref='3/C09', technique='TLA+ law (Laws!RoundTripLaw) judged by TLC on recorded render/parse round trips (trace validation)',
    text='Round-trip records (x, y=render(parse x), z, HTML and definitions of x and y) for the 652 corpus examples x normalize_whitespace are judged by TLC; failing corpus examples that the property sets aside are listed individually in known_findings.json.',
    note='Trusted: exact string equality of HtmlRenderer output as "identical HTML"; TLC.'),
+ 'C10': dict(level='model_checking', ref='3/C10', technique='TLA+ model of the greedy line filler and of reflowable documents (Wrap.tla) checked exhaustively by TLC; every case replayed into fragments_to_lines / the real renderer; results judged by TLC (WrapTrace, Laws!ReflowLaw)',
+   text='TLC checks the filler model against Preserved/HardKept/Bound/idempotence for all paragraphs within bounds; each case is replayed into the real fragments_to_lines and the real layout judged by TLC. Documents written by the specification (spelled words under container paths) are reflowed by the real renderer for several L each and TLC judges meaning, word preservation, idempotence and the length bound.',
+   note='Trusted: word matching of output lines against the specification-provided word list (harness/c10.py), harness/htmlnorm.py whitespace normalisation, TLC. The greedy layout itself is not demanded.'),
  'C11': dict(level='model_checking', ref='3/C11', technique='TLA+ state machine of the process-wide parser configuration (Registry.tla) explored by TLC; every transition replayed into the real library with per-step state comparison and fresh-interpreter output comparison (spec -> code)',
    text='TLC enumerates all histories up to length 3/4 over enter/exit/render/parse/failing-parse, all transitions modulo model state up to length 5/7 and long simulated histories, checking AfterExitDefaults, CleanAtRest and HistoryFree on the model; each exported history is executed on the real library, the module-level token lists are compared with the model and probe outputs are compared with fresh interpreters at quiescent points.',
    note='Trusted: harness/c11.py replay driver and projections of module-level state; fresh interpreters (one subprocess per probe x renderer). Inside open contexts list differences are drift, not violations.'),
